@@ -19,6 +19,34 @@ from pyjelly.parse import ioutils as pio
 
 
 # ------------------------------------------------------------------ C06
+def mismatch_outcome(rcfg, stmts, kind: str, entry: str):
+    """rdflib data of one kind through a stream class made for the other: ('raised', ..) | ('complete', ..) | ('lost', what)."""
+    import rdflib as _rdflib
+
+    from pyjelly.integrations.rdflib import serialize as rser
+
+    data = fam_rdflib.build(stmts, [], kind == "dataset")
+    want = {(str(s), str(p), str(o)) for s, p, o in (data.triples((None, None, None)) if kind == "graph" else [q[:3] for q in data.quads((None, None, None, None))])}
+    try:
+        stream = core.make_stream(rcfg)
+        if entry == "stream_frames":
+            frs = [f.SerializeToString(deterministic=True) for f in rser.stream_frames(stream, data)]
+            blob = fam_encode.to_bytes(rcfg, frs)
+        else:
+            blob = data.serialize(encoding="jelly", format="jelly", options=core.make_options(rcfg), stream=stream)
+    except Exception as e:  # noqa: BLE001
+        return ("raised", type(e).__name__)
+    try:
+        back = _rdflib.Dataset()
+        back.parse(data=blob, format="jelly")
+        got = {(str(s), str(p), str(o)) for s, p, o, _g in back.quads((None, None, None, None))}
+    except Exception as e:  # noqa: BLE001
+        return ("lost", f"bytes that cannot be read back ({type(e).__name__})")
+    if want <= got:
+        return ("complete", len(got))
+    return ("lost", f"{len(want - got)} of {len(want)} statements missing from what was written")
+
+
 def c06_inputs(r):
     g = genmod.Gen(r, nprefix=2, nname=4, ndt=1)
     I, L, B = gs.IRI, gs.Literal, gs.BlankNode
@@ -80,6 +108,18 @@ def c06(ctx):
                 d = fam_rdflib.run_rdflib_case(ctx, case)
                 if d:
                     out.append(d)
+            # ... and the stream class that does NOT fit the data (a Graph through a quads / graphs stream, a
+            # Dataset through a triples stream): refused or written in full, never an options row and nothing else
+            other = "dataset" if data == "graph" else "graph"
+            ostmts = inputs[4 if other == "dataset" else 3][0]
+            for entry, extra in (("stream_frames", {}), ("serialize", {"pass_stream": True})):
+                got = mismatch_outcome(rcfg, ostmts, other, entry)
+                ctx.report.evaluations += 1
+                ctx.report.count(f"C06/rdflib {other} through a {cls} stream/{got[0]}")
+                if got[0] == "lost":
+                    out.append({"family": "ER", "entry": entry, "cfg": rcfg.as_json(), "stmts": [core_stmt_tok(x) for x in ostmts], "data": other, "corresponds": True,
+                                "impl": got[1], "model": "", "mismatch": True,
+                                "property_violation": {"what": f"rdflib {entry}: a {other} written through a {cls} stream returns normally with {got[1]}"}, "signature": {}})
     ctx.report.count("C06/lattice/accepted", n_acc)
     ctx.report.count("C06/lattice/rejected-by-constructor", n_rej)
     # entry points that guess the stream class from the options: flat_/grouped_ to_file, sink.serialize, Graph.serialize
@@ -412,6 +452,20 @@ def c08(ctx):
                                     "carrier": carrier, "envelope": hx(env), "bytes": hx(results[di][2]),
                                     "property_violation": {"what": f"a {'delimited' if delim else 'non-delimited'} stream read from a {carrier} positioned after a consumed {len(env)}-byte envelope parses differently ({got[0]}) than from offset 0 ({results[di][1][0]})"},
                                     "signature": {}})
+        # the classification does not depend on how the first bytes arrive: a non-seekable source (socket,
+        # pipe) whose first read delivers one or two bytes only
+        if not results[0][0]:
+            for di, delim in enumerate((True, False)):
+                for first in (1, 2):
+                    src = Dribble(results[di][2], [first, r.choice([1, 2, 64]), 10 ** 6])
+                    got = fam_encode.impl_parse_flat(b"", src)
+                    ctx.report.evaluations += 1
+                    ctx.report.count("C08/non-seekable, first read of 1-2 bytes")
+                    if got != results[di][1]:
+                        out.append({"family": "HD", "header": hx(results[di][2][:3]), "impl": got[0], "model": results[di][1][0], "corresponds": True,
+                                    "carrier": "non-seekable", "first_read": first, "bytes": hx(results[di][2]), "envelope": "x",
+                                    "property_violation": {"what": f"a {'delimited' if delim else 'non-delimited'} stream read from a non-seekable source whose first read delivers {first} byte(s) parses differently ({got[0]}) than from memory ({results[di][1][0]})"},
+                                    "signature": {}})
         if results[0][0] != results[1][0] or results[0][1] != results[1][1]:
             out.append({"family": "EN", "entry": "stream_frames", "cfg": cfg.as_json(), "stmts": [core_stmt_tok(s) for s in case["stmts"]],
                         "ns": case["ns"], "sink": case["sink"], "corresponds": True, "impl": hx(results[0][2][:12]) + " / " + hx(results[1][2][:12]), "model": "",
@@ -421,6 +475,12 @@ def c08(ctx):
 
 
 def replay_hd(ctx, body):
+    if body.get("carrier") == "non-seekable":
+        data = core.unhx(body["bytes"])
+        got = fam_encode.impl_parse_flat(b"", Dribble(data, [body["first_read"], 1, 10 ** 6]))
+        base = fam_encode.impl_parse_flat(data)
+        print("non-seekable, first read", body["first_read"], ":", got[0], len(got[1]), "from memory:", base[0], len(base[1]))
+        return body["property_violation"]["what"] if got != base else None
     if body.get("carrier"):
         env, data = core.unhx(body["envelope"]), core.unhx(body["bytes"])
         if body["carrier"] == "BytesIO":
